@@ -22,8 +22,8 @@
                                                                 sorted(candidates, key=(inst.name, portname))[0] = first_min
      resolve_portref / update_ref_deps         -> rewrite_inst_g (their net effect: every port of the group is connected to the
                                                                 group's source, in place; the one unconnected port gets a new entry
-                                                                at the end) — the loops themselves, write by write and in oracle order,
-                                                                are Model/C12EWrites.v
+                                                                at the end); the loops themselves, write by write in any order,
+                                                                are Model/C12Order.v (step_replace; Props/C12.v)
    The group a reference belongs to is looked up in the discovered groups (group_of); `canon` gives a group the identifier
    the allocation table is keyed by (the first port of the module, in declaration order, that the group holds — an artefact of
    the model, never exported).  plan_g / res_g / rewrite_inst_g are Model/C01EElab.v's plan / res / rewrite_inst with the two
